@@ -215,8 +215,11 @@ def sym_prepare_resource(vc):
     fk = vc.under_contract(F + 'format_csv.py', ['CSVFormat', 'prepare_resource'])
     vc.under_contract(F + 'format_json.py', ['JSONFormat', 'prepare_resource'])
     vc.under_contract(F + 'base.py', ['FileFormat', 'prepare_resource'])
-    for fmt, mv in (('csv', None), ('json', None), ('csv', ['NA']), ('csv', ['', 'NA']), ('json', ['NA']), ('csv', [])):
+    for fmt, mv in (('csv', None), ('json', None), ('csv', ['NA']), ('csv', ['', 'NA']), ('json', ['NA']), ('csv', []),
+                    ('csv+came-with-a-dialect', None)):
         def thunk(it, fmt=fmt, mv=mv):
+            came_with = fmt.endswith('+came-with-a-dialect')
+            fmt = fmt.split('+')[0]
             mc, mj, mb = load_formats(it)
             mod = mc if fmt == 'csv' else mj
             cls = mod.attrs['CSVFormat'] if fmt == 'csv' else mod.attrs['JSONFormat']
@@ -237,6 +240,10 @@ def sym_prepare_resource(vc):
             desc = PyDict({'name': 'r', 'path': path0, 'schema': PyDict({'fields': PyList([fdate, fstr, fbool])})})
             if mv is not None:
                 desc.d['schema'].d['missingValues'] = PyList(list(mv))
+            if came_with:
+                # a resource loaded from somebody else's package: it describes the file it CAME from (no header row, an escape
+                # character, ';' as delimiter); the file written now is described by the writer's dialect and by nothing else
+                desc.d['dialect'] = PyDict({'header': False, 'escapeChar': '\\', 'delimiter': ';', 'commentChar': '#'})
             res = Opaque('Resource', 'resource')
             res.attrs['descriptor'] = desc
             pr = it.lib.getattr_(it, cls, 'prepare_resource')
@@ -339,7 +346,28 @@ def sym_csv_writer(vc):
 def nat_roundtrip(h):
     import datetime, decimal, os, tempfile, shutil
     from dataflows import Flow, dump_to_path, dump_to_zip, load, set_type, set_primary_key
+    def other_dumps():
+        # leftover state: OTHER dumps run earlier in the same process, with the options a plain dump does not use (titles as
+        # headers, a temporal format property, per-resource formatters) -- a later plain dump must not inherit any of it
+        from dataflows import update_schema
+        d0 = tempfile.mkdtemp(prefix='c03h_')
+        try:
+            rows = [{'when': datetime.date(2020, 1, 2), 'amount': 1, 'label': 'x'}]
+
+            def titled(package):
+                for f in package.pkg.descriptor['resources'][0]['schema']['fields']:
+                    f['title'] = f['name'].upper() + ' (titled)'
+                yield package.pkg
+                yield from package
+            h.run(lambda: Flow(rows, titled, dump_to_path(os.path.join(d0, 't'), use_titles=True)).process())
+            h.run(lambda: Flow(rows, dump_to_path(os.path.join(d0, 'f'), temporal_format_property='outputFormat', format='json')).process())
+            h.run(lambda: Flow(rows, dump_to_zip(os.path.join(d0, 'z.zip'), use_titles=True, add_filehash_to_path=True)).process())
+        finally:
+            shutil.rmtree(d0, ignore_errors=True)
+    other_dumps()
     for _ in range(h.n(25, 250)):
+        if h.rng.random() < 0.15:
+            other_dumps()
         fmt = h.rng.choice(['csv', 'json'])
         zipped = h.rng.random() < 0.4
         hashpath = h.rng.random() < 0.3
@@ -357,9 +385,10 @@ def nat_roundtrip(h):
                      'c_str': h.rng.choice(['x', 'a,b', 'q"uo"te', 'two\nlines', '😀é', "it's", 'None', ' padded ', '\ttab', 'trailing newline\n', ' ',
                                             '=SUM(A1)', '+44 20 7946', '-12 degrees', '@handle', "'quoted", '-', '+']),
                      'd_bool': h.rng.choice([True, False, None]),
-                     'e_date': h.rng.choice([datetime.date(2020, 2, 29), datetime.date(1999, 12, 31), None]),
+                     'e_date': h.rng.choice([datetime.date(2020, 2, 29), datetime.date(1999, 12, 31), datetime.date(476, 9, 4),
+                                             datetime.date(999, 12, 31), None]),
                      'f_time': datetime.time(h.rng.randint(0, 23), 59, 1),
-                     'g_dt': datetime.datetime(2001, 2, 3, 4, 5, i),      # primary key of the first resource: unique per row
+                     'g_dt': datetime.datetime(h.rng.choice([2001, 814]), 2, 3, 4, 5, i),      # primary key of the first resource: unique per row
                      'h_arr': h.rng.choice([[1, 'a', None], [], [[1], {'k': 2}]]),
                      'i_obj': h.rng.choice([{'k': 1}, {}, {'n': {'m': [1]}}]),
                      'j_year': h.rng.choice([2020, 5])}
@@ -370,6 +399,9 @@ def nat_roundtrip(h):
             typing = [set_type('b_num', type='number', resources=None), set_type('j_year', type='year', resources=None),
                       set_type('f_time', type='time', resources=None), set_type('d_bool', type='boolean', resources=None),
                       set_type('a_int', type='integer', resources=None), set_type('e_date', type='date', resources=None),
+                      # (fields may carry titles: a plain dump writes the NAMES as header whatever earlier dumps were asked to do)
+                      set_type('c_str', type='string', title='Text, "titled"', resources=None),
+                      set_type('a_int', type='integer', title='A number', resources=None),
                       set_primary_key(['g_dt'], resources=0)]
             opts = dict(format=fmt, add_filehash_to_path=hashpath)
             dumper = dump_to_zip(os.path.join(d, 'o.zip'), **opts) if zipped else dump_to_path(os.path.join(d, 'o'), **opts)
